@@ -37,4 +37,5 @@ class Env:
     def interp(self, image: bool = True, **kw) -> Interp:
         it = Interp(self.repo, self.schema, self.kindflow.kinds if image else None, **kw)
         it.summarise_funcs = {"odata_query.typing.infer_type"}
+        it.run_exc_ctors = True  # building a library exception runs its constructor (with the values actually passed)
         return it
